@@ -2051,7 +2051,7 @@ func (p *Prog) consumeBound() []Ob {
 						counter = ia.Index
 					}
 				}
-				ob := Ob{Rule: "R28", Inst: "b:consume-bound:" + funcLabel(fn), Props: []string{"C03"}, Pos: p.at(c), Func: funcLabel(fn), Nontrivial: true}
+				ob := Ob{Rule: "R28", Inst: "b:consume-bound:" + funcLabel(fn), Props: []string{"C03", "C14"}, Pos: p.at(c), Func: funcLabel(fn), Nontrivial: true}
 				if counter == nil {
 					ob.Status, ob.Msg = Undecided, "the batch reader does not decode into an element of its result slice"
 					obs = append(obs, ob)
@@ -5248,7 +5248,7 @@ func containsFn(fs []*ssa.Function, g *ssa.Function) bool {
 // never computed from the NUMBER of its items: after a delete a segment has fewer items than offsets.
 func (p *Prog) nextOffsetIsNotACount() []Ob {
 	r := p.R
-	ob := Ob{Rule: "R17", Inst: "i:next-offset-is-not-a-count", Props: []string{"C02", "C03"}, Pos: "-", Nontrivial: true}
+	ob := Ob{Rule: "R17", Inst: "i:next-offset-is-not-a-count", Props: []string{"C02", "C03", "C19"}, Pos: "-", Nontrivial: true}
 	gno := p.methodOf(r.ReaderIndex, "GetNextOffset")
 	var fld *types.Var
 	if gno != nil {
